@@ -378,11 +378,49 @@ func defaultsSuite(gauss string) hlib.Suite {
 
 func fieldOf(mode, what string) string { return mode + "-" + what }
 
+// longFileSuite: long stage lists through the real file reader (`f1 run file <path>`): every stage
+// of the document is in the plan - the trigger's total duration is the sum over all of them - however
+// many bytes the document has.
+func longFileSuite() hlib.Suite {
+	return hlib.Suite{Name: "long-config-files/through-the-file-reader", Run: func(r *hlib.Rec) {
+		for _, n := range []int{1, 10, 700, 800, 4000, 20000} { // 700 / 800 stages: just below / above 64 KiB
+			if !r.Mine() {
+				continue
+			}
+			r.Eval()
+			var b strings.Builder
+			b.WriteString("scenario: sc\n" + limitsBlock() + "stages:\n")
+			for i := 0; i < n; i++ {
+				fmt.Fprintf(&b, "- duration: %ds\n  mode: constant\n  rate: %d/1s\n  jitter: 0\n  distribution: none\n", 1+i%3, 1+i%7)
+			}
+			want := time.Duration(0)
+			for i := 0; i < n; i++ {
+				want += time.Duration(1+i%3) * time.Second
+			}
+			input := fmt.Sprintf("a config file of %d constant stages (%d bytes), durations 1s,2s,3s in turn", n, b.Len())
+			r.SampleCase(input)
+			var tr *api.Trigger
+			var err error
+			if p, pv := hlib.Catch(func() { tr, _, err = (&hlib.RunSpec{Mode: "file", FileYAML: b.String()}).BuildTrigger() }); p {
+				err = fmt.Errorf("panic: %v", pv)
+			}
+			if err != nil {
+				r.Fail("C15/plan-rejected", "long-file", err.Error(), input)
+				continue
+			}
+			if tr.Duration != want {
+				r.Fail("C15/total-duration", "long-file", fmt.Sprintf("the trigger's total duration is %s, the %d stages sum to %s", tr.Duration, n, want), input)
+			}
+			r.Distinct(fmt.Sprint(n))
+		}
+	}}
+}
+
 func suites(tier string) []hlib.Suite {
 	if tier == "quick" {
-		return []hlib.Suite{planSuite(2), defaultsSuite("own-fields"), limitsSuite()}
+		return []hlib.Suite{planSuite(2), defaultsSuite("own-fields"), limitsSuite(), longFileSuite()}
 	}
-	return []hlib.Suite{planSuite(3), defaultsSuite("full"), limitsSuite()}
+	return []hlib.Suite{planSuite(3), defaultsSuite("full"), limitsSuite(), longFileSuite()}
 }
 
 func main() { hlib.EnumMain("C15", suites) }
